@@ -298,7 +298,7 @@ class ValidationSpec(Spec):
             "shape, array-from-array.  The deterministic part runs table cases once each (all in thorough, every third "
             "in quick).  non-trivial = the run contained a refusal or an in-force probe; distinct = distinct trace")
     expected_probes = ("probe_in_force", "probe_inside_block", "validation_off_inside_block", "block_exception",
-                       "block_lib_exception", "nested_block", "tasks_3", "assign_set", "assign_item", "assign_slice",
+                       "block_lib_exception", "block_interrupt", "nested_block", "tasks_3", "assign_set", "assign_item", "assign_slice",
                        "assign_from", "assign_nested", "refused", "accepted", "stale_accessor_used_in_force", "line_level_mode", "api_context_runs", "twin_message_touched", "same_object_reassigned")
     components = {"real": ["pyrtma.validators (all descriptors, disable_message_validation)", "pyrtma.message_base",
                            "pyrtma.message_data"],
